@@ -60,7 +60,7 @@ def finish(prop, tier, seed, level, verdict, cases, t0, rule, nontrivial_fn, ext
         r = c.result
         if r is None: continue
         try:
-            if nontrivial_fn(r, c): distinct.add((c.meta.get("variant"), r.get("hash", c.label), json.dumps(c.env, sort_keys=True)))
+            if nontrivial_fn(r, c): distinct.add((c.meta.get("variant"), r.get("hash", c.label), c.meta.get("plan", c.meta.get("config", "")), c.meta.get("scenario", c.meta.get("workload", "")), json.dumps({k: v for k, v in c.env.items() if k.startswith("MIMALLOC_")}, sort_keys=True)))
         except Exception:
             pass
     cov = {"evaluations": evals, "distinct_nontrivial": len(distinct), "rule": rule,
@@ -176,6 +176,197 @@ def c12(tier, seed):
                   "a case = one history leaving pages empty / striped / full / single-block huge, with a full heap-walk comparison against the shadow model every 64 operations "
                   "(every live block once, enclosing range, no dead block, area.used, early stop); non-trivial = >=40 walks visiting >=5000 blocks; distinct = (variant, op-list hash)",
                   lambda r, c: r.get("walks", 0) >= 40 and r.get("walk_blocks", 0) >= 5000, cov, SEQ_ASSUME)
+
+@check("C06")
+def c06(tier, seed):
+    t0 = time.time(); prop = "C06"
+    variants = ["rel", "dbg", "sec", "asan"]
+    cases = seq_cases(prop, "malformed", variants, tier_n(tier, 8, 100), tier_n(tier, 900, 3000), seed)
+    # well-formed moderate requests must succeed: the general history with sizes up to 1 GiB class is run by C01; here a short one per variant
+    v = Verdict(prop)
+    for c in core.run_cases(cases): v.add(c)
+    cov = seq_cov(cases)
+    cov["malformed_requests"] = core.merge_counts(cases, "malformed")
+    return finish(prop, tier, seed, "exploration", v, cases, t0,
+                  "a case = the full grid of malformed requests (count*size overflow around 2^32/2^63/SIZE_MAX for 12 element sizes x 6 counts x both argument orders; sizes above PTRDIFF_MAX incl. "
+                  "SIZE_MAX-k for k up to a page/slice; 19 invalid alignments x 8 sizes; posix_memalign codes and out-parameter; errno of reallocarray/reallocarr) for every entry point, "
+                  "executed at 4 heap states (fresh, busy, busier, after frees) of a generated history, plus well-formed requests of that history; after every call: NULL/errno/out-parameter, "
+                  "allocated-block count unchanged, victim block of realloc untouched, only EOVERFLOW/ENOMEM reported; non-trivial = >=4 heap states and >=8000 malformed calls; distinct = (variant, op hash)",
+                  lambda r, c: r.get("malformed", {}).get("heap_states", 0) >= 4 and r.get("malformed", {}).get("calls", 0) >= 8000, cov,
+                  SEQ_ASSUME + ["the throwing mi_new forms are not driven: in a C build of mimalloc they abort() by design when no std::new_handler can be installed"])
+
+@check("C17")
+def c17(tier, seed):
+    t0 = time.time(); prop = "C17"
+    cases = seq_cases(prop, "hardening", ["sec"], tier_n(tier, 32, 400), tier_n(tier, 3000, 8000), seed)
+    cases += seq_cases(prop, "hardening", ["dbg"], tier_n(tier, 64, 1500), 500, seed, start_index=50000)
+    v = Verdict(prop)
+    for c in core.run_cases(cases): v.add(c)
+    cov = seq_cov(cases)
+    cov["attacks"] = core.merge_counts(cases, "hardening")
+    cov["attacks_sec"] = core.merge_counts([c for c in cases if c.meta["variant"] == "sec"], "hardening")
+    cov["attacks_dbg"] = core.merge_counts([c for c in cases if c.meta["variant"] == "dbg"], "hardening")
+    return finish(prop, tier, seed, "exploration", v, cases, t0,
+                  "a case = an ordinary history with program errors inserted at random points: a second free of a thread-local block whose page holds another live block (expect EAGAIN), "
+                  "a foreign byte written at p[n] (expect EFAULT at free), a freed block's link overwritten with a random 64-bit value followed by allocations of that class until the allocator "
+                  "reaches it (expect EFAULT); sec: ~25 attacks per case and every shadow-model oracle (overlap, contents, conservation, returned address inside OS regions) stays on afterwards; "
+                  "dbg: one attack per case, the case ends at the expected report; non-trivial = >=1 attack executed; distinct = (variant, op-list hash)",
+                  lambda r, c: sum(r.get("hardening", {}).get(k, 0) for k in ("double_free", "overflow", "forged_link")) >= 1, cov,
+                  SEQ_ASSUME + ["forged links are random 64-bit values (the statement's exception: decoding into the same area has probability ~2^-48)"])
+
+def _drv_case(prop, label, variant, args, env=None, timeout=240, crash_refutes=None, meta=None):
+    exe = build.driver("drv_seq", variant)
+    e = dict(env or {}); e.update(san_env(variant, prop, label))
+    m = {"variant": variant}; m.update(meta or {})
+    return Case(label, [exe, "--prop", prop] + traits_args(variant) + list(args), env=e, timeout=timeout, crash_refutes=(crash_refutes if crash_refutes is not None else [prop]), meta=m)
+
+def envname(env):
+    return ",".join("%s=%s" % (k.replace("MIMALLOC_", "").lower(), v) for k, v in sorted(env.items())) or "default"
+
+@check("C11")
+def c11(tier, seed):
+    t0 = time.time(); prop = "C11"
+    variants = ["rel", "dbg"]
+    build.build_many([("drv_seq", v) for v in variants])
+    configs = [{}, {"MIMALLOC_DISALLOW_ARENA_ALLOC": "1"}, {"MIMALLOC_ARENA_RESERVE": "65536"}, {"MIMALLOC_PURGE_DELAY": "0"}]
+    if tier == "thorough": configs += [{"MIMALLOC_PURGE_DECOMMITS": "0"}, {"MIMALLOC_EAGER_COMMIT": "0"}, {"MIMALLOC_ARENA_EAGER_COMMIT": "0"}, {"MIMALLOC_PURGE_DELAY": "-1"}]
+    reps = tier_n(tier, 7, 40); nseeds = tier_n(tier, 1, 4)
+    cases = []; idx = 0
+    for v in variants:
+        for w in range(5):
+            for cfg in configs:
+                for k in range(nseeds):
+                    s = case_seed(seed, prop, idx); idx += 1
+                    cases.append(_drv_case(prop, "C11-w%d-%s-%s-%d" % (w, envname(cfg), v, s), v, ["--profile", "ledger", "--seed", s, "--workload", w, "--reps", reps], env=cfg,
+                                           timeout=600, crash_refutes=["C01"], meta={"workload": w, "config": envname(cfg), "seed": s}))
+    v = Verdict(prop)
+    for c in core.run_cases(cases): v.add(c)
+    cov = seq_cov(cases)
+    series = []
+    for c in cases:
+        r = c.result or {}
+        led = r.get("ledger", {})
+        if led.get("series"):
+            series.append({"workload": c.meta["workload"], "config": c.meta["config"], "variant": c.meta["variant"],
+                           "mapped": [m["mapped"] for m in led["series"]], "resident": [m["resident"] for m in led["series"]], "small_regions": [m["small_regions"] for m in led["series"]]})
+    cov["series"] = series[:12]
+    cov["repetitions_per_case"] = reps
+    cov["blocks_allocated_and_freed"] = sum((c.result or {}).get("ledger", {}).get("blocks", 0) for c in cases)
+    cov["threads_started_and_exited"] = sum((c.result or {}).get("ledger", {}).get("threads", 0) for c in cases)
+    return finish(prop, tier, seed, "exploration", v, cases, t0,
+                  "a case = N repetitions of one allocate-everything/free-everything workload (small, large, huge 40-200 MiB, aligned-huge with alignment 32-128 MiB, 4 threads with thread exit) under one option "
+                  "setting (arenas default / disabled / 64 MiB reserve / immediate purge ...); after every repetition + forced collects the OS ledger (mmap/munmap/mprotect/madvise shim + mincore) must show: "
+                  "no region >= 1 MiB outside arenas still mapped, arena memory not resident, and for repetitions >= 3 no growth of mapped or resident bytes; non-trivial = >= 3 repetitions completed; "
+                  "distinct = (variant, workload, config, seed)",
+                  lambda r, c: len(r.get("ledger", {}).get("series", [])) >= 3, cov,
+                  SEQ_ASSUME + ["repetitions 1-2 are warm-up (arenas, thread-data cache, segment map are legitimately retained)", "residency is measured with mincore on the ledger's regions, tolerance 1 MiB"])
+
+@check("C18")
+def c18(tier, seed):
+    t0 = time.time(); prop = "C18"
+    variants = ["rel"] + (["dbg"] if tier == "thorough" else [])
+    build.build_many([("drv_seq", v) for v in variants])
+    cfgs = []
+    for d in (["-1", "0", "5", "10", "100"] if tier == "quick" else ["-1", "0", "1", "5", "10", "50", "100", "1000"]):
+        for sc in ("pages", "segments", "all"):
+            extra = [{}]
+            if d not in ("-1",): extra = [{}, {"MIMALLOC_PURGE_DECOMMITS": "0"}] if sc != "pages" else [{}, {"MIMALLOC_ARENA_PURGE_MULT": "1"}]
+            for ex in extra:
+                e = {"MIMALLOC_PURGE_DELAY": d}; e.update(ex); cfgs.append((sc, e))
+    if tier == "thorough":
+        for d in ("0", "10"):
+            for sc in ("segments", "all"):
+                cfgs.append((sc, {"MIMALLOC_PURGE_DELAY": d, "MIMALLOC_DISALLOW_ARENA_ALLOC": "1"}))
+    cases = []; idx = 0
+    for v in variants:
+        for (sc, e) in cfgs:
+            for k in range(tier_n(tier, 1, 6)):
+                s = case_seed(seed, prop, idx); idx += 1
+                cases.append(_drv_case(prop, "C18-%s-%s-%s-%d" % (sc, envname(e), v, s), v, ["--profile", "purge", "--seed", s, "--scenario", sc], env=e, timeout=300, crash_refutes=["C01"],
+                                       meta={"scenario": sc, "config": envname(e), "seed": s}))
+    v = Verdict(prop)
+    for c in core.run_cases(cases): v.add(c)
+    cov = seq_cov(cases)
+    cov["purge_measurements"] = [dict(scenario=c.meta["scenario"], config=c.meta["config"], **(c.result or {}).get("purge", {})) for c in cases[:40]]
+    cov["virtual_clock_ms_advanced"] = core.sum_field(cases, "clock_ms")
+    return finish(prop, tier, seed, "exploration", v, cases, t0,
+                  "a case = one option setting (purge_delay in {-1,0,5,10,100}, decommit/reset, arena multiplier) x one scenario (free whole pages / whole segments / everything of a 290 MiB working set); "
+                  "the virtual clock (wrapped clock_gettime) is advanced far beyond the delay while ordinary alloc/free activity and non-forced mi_collect run; committed bytes = ledger pages in state RW "
+                  "that mincore reports resident; the bytes a forced collect would return are the yardstick; violation = more than 30% (45% for the page scenario) of them still committed, or any purge "
+                  "call with delay -1; non-trivial = peak committed >= 64 MiB measured; distinct = (variant, scenario, config, seed)",
+                  lambda r, c: r.get("purge", {}).get("peak", 0) >= (64 << 20), cov,
+                  SEQ_ASSUME + ["time is the wrapped clock_gettime; mimalloc reads no other clock for purging"])
+
+FAULT_CLASSES = {0: "mmap", 1: "munmap", 2: "mprotect", 3: "madvise"}
+@check("C07")
+def c07(tier, seed):
+    import errno as E
+    t0 = time.time(); prop = "C07"
+    variants = ["rel", "sec"]
+    build.build_many([("drv_seq", v) for v in variants])
+    ops = tier_n(tier, 1200, 2500)
+    setups = [(0, {}), (1, {}), (2, {}), (3, {}), (4, {}), (1, {"MIMALLOC_DISALLOW_ARENA_ALLOC": "1"}), (1, {"MIMALLOC_EAGER_COMMIT": "0", "MIMALLOC_ARENA_EAGER_COMMIT": "0"}), (2, {"MIMALLOC_PURGE_DELAY": "0"})]
+    if tier == "quick": setups = setups[:5] + setups[5:6]
+    # 1. clean runs: count the OS calls of every workload
+    counts = {}
+    clean = []
+    for v in variants:
+        for si, (w, e) in enumerate(setups):
+            s = case_seed(seed, prop, si)
+            clean.append(_drv_case(prop, "C07-clean-w%d-%s-%s" % (w, envname(e), v), v, ["--profile", "faults", "--seed", s, "--ops", ops, "--workload", w], env=e, timeout=300, meta={"setup": si, "seed": s, "clean": 1}))
+    verdict = Verdict(prop)
+    for c in core.run_cases(clean):
+        verdict.add(c)
+        if c.result: counts[(c.meta["variant"], c.meta["setup"])] = c.result.get("os", {})
+    # 2. one process per fault position
+    per_class = tier_n(tier, 10, 100000)
+    rnd = random.Random(seed)
+    cases = []
+    for v in variants:
+        for si, (w, e) in enumerate(setups):
+            osc = counts.get((v, si))
+            if not osc: continue
+            s = case_seed(seed, prop, si)
+            for cls, cname in FAULT_CLASSES.items():
+                K = int(osc.get(cname, 0))
+                if K == 0: continue
+                if K <= per_class: positions = list(range(1, K + 1))
+                else:
+                    positions = sorted(set([1, 2, 3, K] + [rnd.randint(1, K) for _ in range(per_class - 4)]))
+                for k in positions:
+                    for persistent in (0, 1):
+                        if tier == "quick" and (k + persistent) % 2 == 1 and k > 3: continue      # alternate single / persistent on the quick tier
+                        errs = [E.ENOMEM]
+                        if cls == 2: errs = [E.ENOMEM, E.EPERM] if tier == "thorough" else [E.ENOMEM if k % 2 else E.EPERM]
+                        if cls in (0, 3) and not persistent and tier == "thorough": errs = [E.ENOMEM, E.EAGAIN]
+                        for er in errs:
+                            plan = "%d:%d:%d:%d" % (cls, k, persistent, er)
+                            cases.append(_drv_case(prop, "C07-w%d-%s-%s-%s" % (w, envname(e), v, plan.replace(":", "_")), v,
+                                                   ["--profile", "faults", "--seed", s, "--ops", ops, "--workload", w, "--faults", plan], env=e, timeout=300,
+                                                   meta={"setup": si, "workload": w, "config": envname(e), "plan": plan, "class": cname, "k": k, "K": K, "persistent": persistent, "seed": s}))
+    for c in core.run_cases(cases): verdict.add(c)
+    fired = [c for c in cases if (c.result or {}).get("faults", {}).get("fired", 0) > 0]
+    by_class = {}
+    for c in cases:
+        d = by_class.setdefault(c.meta["class"], {"planned": 0, "fired": 0})
+        d["planned"] += 1
+        if c in fired: d["fired"] += 1
+    cov = seq_cov(cases)
+    cov["fault_plans"] = {"planned": len(cases), "fired": len(fired), "by_class": by_class}
+    cov["os_calls_of_clean_runs"] = {"%s/setup%d" % k: {n: v.get(n) for n in ("mmap", "munmap", "mprotect", "madvise")} for k, v in counts.items()}
+    cov["battery_runs_after_heal"] = sum((c.result or {}).get("faults", {}).get("battery_runs", 0) for c in cases)
+    cov["giveback_checked"] = sum((c.result or {}).get("faults", {}).get("giveback_checked", 0) for c in cases)
+    cov["exhaustive"] = (tier == "thorough")
+    allc = clean + cases
+    # for the schema: evaluations / distinct over fired plans
+    def nontrivial(r, c): return c.meta.get("clean") or r.get("faults", {}).get("fired", 0) > 0
+    return finish(prop, tier, seed, "fault_enumeration", verdict, allc, t0,
+                  "a case = one workload (small / mixed / large+huge / aligned incl. huge alignments / threads with exit, several option settings) re-run in a fresh process with ONE fault plan: the k-th "
+                  "mmap / munmap / mprotect / madvise call made by mimalloc fails once, or every call from the k-th on fails until the heal point (errno ENOMEM, EPERM, EAGAIN); k ranges over the call "
+                  "count measured in a clean run (all k in the thorough tier, a stride sample in the quick tier); oracles: no crash, live blocks intact and accessible, conservation, post-heal battery "
+                  "(all page kinds, new heap, new thread), everything given back; non-trivial = the planned fault really fired (INJECTED counter > 0); distinct = (variant, workload, config, plan)",
+                  nontrivial, cov,
+                  SEQ_ASSUME + ["NDEBUG builds only (debug builds assert after a failed decommit by design)", "a plan whose fault never fired counts as not covered"])
 
 # ---------------------------------------------------------------------------------------------
 def setup():
